@@ -1109,8 +1109,9 @@ class TrustRegion:
             * options[Options.RHOEND]
             < self.resolution
         ):
-            self.resolution = np.sqrt(self.resolution
-                                      * options[Options.RHOEND])
+            self.resolution = np.sqrt(self.resolution) * np.sqrt(
+                options[Options.RHOEND]
+            )
         else:
             self.resolution = options[Options.RHOEND]
 
